@@ -55,6 +55,7 @@ type Gates struct {
 	seen    map[string]map[int]bool // point -> goroutine ids that already arrived
 	parked  []*Parked
 	passes  map[string]int
+	fails   map[string]int
 	total   int
 	seq     int
 	open    bool
@@ -116,6 +117,27 @@ func (g *Gates) Hold(points ...string) {
 		g.holds[p] = true
 	}
 	g.mu.Unlock()
+}
+
+// FailNext makes the next arrival at point fail (only points that can fail: "<role>:docsMatchingTerms").
+func (g *Gates) FailNext(point string) {
+	g.mu.Lock()
+	if g.fails == nil {
+		g.fails = map[string]int{}
+	}
+	g.fails[point]++
+	g.mu.Unlock()
+}
+
+func (g *Gates) takeFail(point string) bool {
+	g.mu.Lock()
+	defer g.mu.Unlock()
+	if g.fails[point] > 0 {
+		g.fails[point]--
+		g.logf("fail %s", point)
+		return true
+	}
+	return false
 }
 
 // HoldFirst makes the given points park every goroutine on its first arrival only.
@@ -277,7 +299,11 @@ type gatedSegment struct {
 }
 
 func (s *gatedSegment) DocsMatchingTerms(terms []segment.Term) (*roaring.Bitmap, error) {
-	s.g.Arrive(Role() + ":docsMatchingTerms")
+	role := Role()
+	s.g.Arrive(role + ":docsMatchingTerms")
+	if s.g.takeFail(role + ":docsMatchingTerms") {
+		return nil, ErrInjected
+	}
 	return s.Segment.DocsMatchingTerms(terms)
 }
 
